@@ -174,6 +174,9 @@ impl Buffer {
     #[inline]
     fn reallocate(&mut self, num_words: usize) {
         assert!(num_words >= self.len());
+        if num_words > Self::MAX_CAPACITY {
+            panic_allocate_too_much()
+        }
         self.reallocate_raw(Self::default_capacity(num_words));
     }
 
